@@ -56,12 +56,12 @@ theorem conforms_known_unique (σ : String → Nat) : ∀ (sh : Shape) (r1 r2 : 
 
 /-- **`check_shape_sound` (partial).**  If two values are checked against the *same* list of dimension names
 (e.g. `input` and `skip` against `["B","S","D"]`, `query`/`key`/`value` against their layouts) and both checks
-succeed, then — provided the first value's static shape has no *unknown* dim — the two static shapes are
+succeed, then — provided ONE of the two static shapes has no *unknown* dim — the two static shapes are
 identical, hence under every valuation `σ` of the symbolic dims any two conforming runtime shapes are equal.
 The hypothesis is forced: see `check_shape_sound_full_refuted`. -/
 theorem check_shape_sound_partial (names : List String) (sh1 sh2 : Shape) (b0 b1 b2 : Bindings)
     (h1 : checkShape b0 (some sh1) names = some b1) (h2 : checkShape b1 (some sh2) names = some b2)
-    (hk : sh1.all Dim.isKnown = true) :
+    (hk : sh1.all Dim.isKnown = true ∨ sh2.all Dim.isKnown = true) :
     sh2 = sh1 ∧ ∀ σ r1 r2, Conforms σ sh1 r1 → Conforms σ sh2 r2 → r1 = r2 := by
   have hl1 : sh1.length = names.length := by
     unfold checkShape at h1; by_cases hl : sh1.length = names.length
@@ -92,14 +92,23 @@ theorem check_shape_sound_partial (names : List String) (sh1 sh2 : Shape) (b0 b1
     rw [hmono] at he2
     have hee : e2 = e1 := (Option.some.inj he2).symm
     subst hee
-    have hk1 : (sh1[i]).isKnown = true := (List.all_eq_true.mp hk) _ (List.getElem_mem _)
-    have e1eq : e2 = sh1[i] := pyEq_known_eq hk1 hp1
-    rw [e1eq] at hp2
-    exact pyEq_known_eq' hk1 hp2
+    rcases hk with hk | hk
+    · have hk1 : (sh1[i]).isKnown = true := (List.all_eq_true.mp hk) _ (List.getElem_mem _)
+      have e1eq : e2 = sh1[i] := pyEq_known_eq hk1 hp1
+      rw [e1eq] at hp2
+      exact pyEq_known_eq' hk1 hp2
+    · have hk2 : (sh2[i]).isKnown = true := (List.all_eq_true.mp hk) _ (List.getElem_mem _)
+      have e2eq : e2 = sh2[i] := pyEq_known_eq hk2 hp2
+      rw [e2eq] at hp1
+      exact (pyEq_known_eq' hk2 hp1).symm
   refine ⟨heq, ?_⟩
   intro σ r1 r2 c1 c2
   rw [heq] at c2
-  exact conforms_known_unique σ sh1 r1 r2 hk c1 c2
+  have hk' : sh1.all Dim.isKnown = true := by
+    rcases hk with hk | hk
+    · exact hk
+    · rw [heq] at hk; exact hk
+  exact conforms_known_unique σ sh1 r1 r2 hk' c1 c2
 
 /-- The statement without the "no unknown dim" hypothesis is false: `[?]` and `[?]` unify (in `onnx_ir`,
 `SymbolicDim(None) == SymbolicDim(None)`), yet runtime sizes 2 and 1 both conform.  Replayed on the real code
@@ -639,6 +648,207 @@ theorem pipeline_scale_bias_keeps_mul :
            s := 0.5, sdpaScale := none, mask := false }
       = "count=1/1/0/1/0 MultiHeadAttention@com.microsoft{num_heads=2}(@Mul,km,vm,@Concat)->1" := by decide
 
+
+/-! ## Round 3: ∀-statements about the model's own matchers and stage order -/
+
+/-- `permOf f n` *is* the axis map `f` as an ONNX `perm` list: entry `k` is `f n k` for `k < n`, and the list has
+length `n`.  (Links the list-level decisions of `fmm` — `p == permBatch n`, … — to the axis-map theorems
+`fmm_case1/2/3`, for every rank.) -/
+theorem permOf_get (f : Nat → Nat → Nat) (n k : Nat) :
+    (permOf f n).length = n ∧ (permOf f n)[k]? = if k < n then some (Int.ofNat (f n k)) else none := by
+  unfold permOf
+  refine ⟨by simp, ?_⟩
+  by_cases hk : k < n
+  · simp [hk, List.getElem?_map, List.getElem?_range hk]
+  · simp [hk, List.getElem?_map]
+
+/-- the axis a `perm` list sends output axis `k` to -/
+def permAt (p : List Int) (k : Nat) : Nat := ((p[k]?).getD 0).toNat
+
+theorem permAt_permOf (f : Nat → Nat → Nat) (n k : Nat) (hk : k < n) : permAt (permOf f n) k = f n k := by
+  unfold permAt
+  rw [(permOf_get f n k).2]
+  simp [hk]
+
+/-- **`batch_rule_sound`** — the model's own decision function for the three batch-transpose rules, for EVERY
+rank `n ≥ 2`, every `perm` list of that length, both values of the operand's `transBatch` (`tb`) and `trans` (`t`)
+flags: whenever `batchRule` fires with `(flipBatch, flipTrans)`, the Transpose's `perm` composed with the axis map
+of the old flags IS the axis map of the new flags, at every axis. -/
+theorem batch_rule_sound (n : Nat) (hn : 2 ≤ n) (p : List Int) (hp : p.length = n) (tb t fb ft : Bool)
+    (h : batchRule (if tb then 1 else 0) p = some (fb, ft)) (k : Nat) (hk : k < n) :
+    permAt p (effAxis n tb t k) = effAxis n (tb != fb) (t != ft) k := by
+  have hrange : effAxis n tb t k < n := by
+    have a1 := axSwap_cases n k; have a2 := axBatch_cases n k; have a3 := axRotL_cases n k
+    cases tb <;> cases t <;> simp only [effAxis] <;> omega
+  unfold batchRule at h
+  rw [hp] at h
+  cases tb
+  · -- transBatch = 0
+    simp only [Bool.false_eq_true, if_false, beq_self_eq_true, if_true] at h
+    split at h
+    · rename_i hpe
+      have hpe' : p = permBatch n := by simpa using hpe
+      obtain ⟨rfl, rfl⟩ := Prod.mk.inj (Option.some.inj h)
+      rw [hpe']; unfold permBatch
+      rw [permAt_permOf _ _ _ hrange]
+      have := (fmm_case2 n k hn hk t).1
+      cases t <;> simpa using this
+    · split at h
+      · rename_i _ hpe
+        have hpe' : p = permRotL n := by simpa using hpe
+        obtain ⟨rfl, rfl⟩ := Prod.mk.inj (Option.some.inj h)
+        rw [hpe']; unfold permRotL
+        rw [permAt_permOf _ _ _ hrange]
+        have := (fmm_case1 n k hn hk t).1
+        cases t <;> simpa using this
+      · simp at h
+  · -- transBatch = 1
+    simp only [if_true] at h
+    have h10 : ((1 : Int) == 0) = false := by decide
+    simp only [h10, Bool.false_eq_true, if_false] at h
+    split at h
+    · rename_i hpe
+      have hpe' : p = permBatchInv n := by simpa using hpe
+      obtain ⟨rfl, rfl⟩ := Prod.mk.inj (Option.some.inj h)
+      rw [hpe']; unfold permBatchInv
+      rw [permAt_permOf _ _ _ hrange]
+      have := (fmm_case2 n k hn hk t).2
+      cases t <;> simpa using this
+    · split at h
+      · rename_i _ hpe
+        have hpe' : p = permRotR n := by simpa using hpe
+        obtain ⟨rfl, rfl⟩ := Prod.mk.inj (Option.some.inj h)
+        rw [hpe']; unfold permRotR
+        rw [permAt_permOf _ _ _ hrange]
+        have := (fmm_case1 n k hn hk t).2
+        cases t <;> simpa using this
+      · split at h
+        · rename_i _ _ hpe
+          have hpe' : p = permSwap0L n := by
+            simp only [Bool.and_eq_true, beq_iff_eq] at hpe; exact hpe.1
+          obtain ⟨rfl, rfl⟩ := Prod.mk.inj (Option.some.inj h)
+          rw [hpe']; unfold permSwap0L
+          rw [permAt_permOf _ _ _ hrange]
+          have := fmm_case3 n k hn hk t
+          cases t <;> simpa using this
+        · simp at h
+
+example : batchRule 0 [1, 2, 0, 3] = some (true, false) ∧ batchRule 1 [3, 0, 1, 2] = some (true, true)
+    ∧ batchRule 1 [3, 1, 2, 0] = some (false, true) ∧ batchRule 0 [0, 1, 3, 2] = none := by decide
+
+/-- **Rotary stage dependency**, for EVERY instance: a later stage fires only if the earlier one did (partial ⇒
+cos/sin cache ⇒ rotary), the partial stage only on a partial rotation whose two slices meet (`end1 = start2`), and
+the cos/sin-cache stage never on an odd rotary width, a non-`[1,·,1]` `inv_freq` or constant position ids. -/
+theorem rope_stage_dependency (i : RopeIn) :
+    ((ropeStages i).2.2.1 = 1 → (ropeStages i).2.1 = 1 ∧ i.partialRot = true ∧ i.pEnd1 = i.pStart2)
+    ∧ ((ropeStages i).2.1 = 1 → (ropeStages i).1 = 1 ∧ i.odd = false ∧ i.inv0 = 1 ∧ i.posConst = false)
+    ∧ ((ropeStages i).1 = 1 → (rotaryCheck i.xe i.sl).isSome = true) := by
+  unfold ropeStages
+  cases hrc : rotaryCheck i.xe i.sl with
+  | none => simp
+  | some h =>
+    simp only [Option.isSome_some, implies_true, and_true]
+    by_cases hbad : (i.odd || i.inv0 != 1 || i.posConst) = true
+    · simp [hbad]
+    · have hb' := hbad
+      simp only [Bool.or_eq_true, bne_iff_ne, ne_eq, not_or, Bool.not_eq_true, Decidable.not_not] at hb'
+      by_cases hp : (i.partialRot && i.pEnd1 == i.pStart2) = true
+      · have hp' := hp
+        simp only [Bool.and_eq_true, beq_iff_eq] at hp'
+        simp [hbad, hp, hb'.1.1, hb'.1.2, hb'.2, hp'.1, hp'.2]
+      · simp [hbad, hp, hb'.1.1, hb'.1.2, hb'.2]
+
+section SkipMatch
+variable {K : Type} [Field K]
+
+/-- value of an `Add` tree under a valuation of its leaves (one element position; the checks force equal shapes) -/
+def E.eval (ρ : String → K) : E → K
+  | .leaf n _ => ρ n
+  | .add _ l r => E.eval ρ l + E.eval ρ r
+
+/-- **`skip_match_sound`** — for EVERY add-tree and every rule variant (`pre`, `post`, `none`): whatever the model's
+structural matcher binds as (`input`, `skip`, `bias?`), the matched value is `input + skip + bias` (bias 0 when
+absent) — i.e. exactly what `Skip(Simplified)LayerNormalization` normalises and returns as its last output. -/
+theorem skip_match_sound (ρ : String → K) (v : String) (t inp sk : E) (bias : Option E)
+    (h : skipMatch v t = some (inp, sk, bias)) :
+    E.eval ρ t = E.eval ρ inp + E.eval ρ sk + (match bias with | some b => E.eval ρ b | none => 0) := by
+  unfold skipMatch at h
+  split at h <;> simp only [Option.some.injEq, Prod.mk.injEq, reduceCtorEq] at h
+  all_goals (obtain ⟨rfl, rfl, rfl⟩ := h; simp only [E.eval]; ring)
+
+example : skipMatch "pre" (.add none (.leaf "skip" none) (.add none (.leaf "x" none) (.leaf "b" none)))
+    = some (.leaf "x" none, .leaf "skip" none, some (.leaf "b" none)) := rfl
+
+end SkipMatch
+
+section StageOrder
+variable {K : Type} [Field K]
+
+/-- the query fed to attention: the ops applied to the projection `q`, innermost first -/
+def applyOps {n : Nat} (s : K) (b : Fin n → K) : List QOp → (Fin n → K) → (Fin n → K)
+  | [], q => q
+  | .mul :: r, q => applyOps s b r (fun d => q d * s)
+  | .add :: r, q => applyOps s b r (fun d => q d + b d)
+
+theorem applyOps_append {n : Nat} (s : K) (b : Fin n → K) (l : List QOp) (o : QOp) (q : Fin n → K) :
+    applyOps s b (l ++ [o]) q = applyOps s b [o] (applyOps s b l q) := by
+  induction l generalizing q with
+  | nil => rfl
+  | cons a r ih => cases a <;> simp only [List.cons_append, applyOps] <;> exact ih _
+
+/-- one attention score: `(query · key) · scale`; MHA adds its packed bias to the query first -/
+def mhaScore {n : Nat} (query bias key : Fin n → K) (scale : K) : K := (∑ d, (query d + bias d) * key d) * scale
+
+/-- **`pipe_stage_order_sound`** — for EVERY stack of `Mul(·,s)` / `Add(·,b)` on the query projection (any length,
+any order), every head size, all values: the node the modelled pipeline (`mha_scale` once, then `mha_bias`) leaves —
+the remaining ops in front of MHA, the bias packed into MHA iff folded, `scale·s` iff folded — computes the same
+attention score as the original query with no bias and the original scale.  (The seeded order "scale again after
+bias" is exactly what `scale_before_bias_not_foldable` refutes.) -/
+theorem pipe_stage_order_sound {n : Nat} (ops : List QOp) (otherBias : Bool) (q b k : Fin n → K) (s c : K) :
+    mhaScore (applyOps s b (pipeStages ops otherBias).1 q)
+        (if (pipeStages ops otherBias).2.2 then b else fun _ => 0) k
+        (if (pipeStages ops otherBias).2.1 then c * s else c)
+      = mhaScore (applyOps s b ops q) (fun _ => 0) k c := by
+  have hmul : ∀ l : List QOp, l.getLast? = some QOp.mul → l = l.dropLast ++ [QOp.mul] :=
+    fun l h => (List.dropLast_append_getLast? _ (by simp [h])).symm
+  have hadd : ∀ l : List QOp, l.getLast? = some QOp.add → l = l.dropLast ++ [QOp.add] :=
+    fun l h => (List.dropLast_append_getLast? _ (by simp [h])).symm
+  have foldMul : ∀ (x : Fin n → K), mhaScore (fun d => x d * s) (fun _ => 0) k c = mhaScore x (fun _ => 0) k (c * s) := by
+    intro x; unfold mhaScore
+    simp only [Finset.sum_mul]; exact Finset.sum_congr rfl (fun d _ => by ring)
+  have foldAdd : ∀ (x : Fin n → K) (c' : K), mhaScore (fun d => x d + b d) (fun _ => 0) k c' = mhaScore x b k c' := by
+    intro x c'; unfold mhaScore
+    congr 1; exact Finset.sum_congr rfl (fun d _ => by ring)
+  unfold pipeStages peelMul peelAdd
+  by_cases h1 : ops.getLast? = some QOp.mul
+  · -- scale folded
+    have e1 := hmul ops h1
+    simp only [h1, if_true]
+    by_cases h2 : ops.dropLast.getLast? = some QOp.add
+    · have e2 := hadd _ h2
+      simp only [h2, if_true, Bool.true_or]
+      conv_rhs => rw [e1, applyOps_append, e2, applyOps_append]
+      simp only [applyOps]
+      rw [foldMul, foldAdd]
+    · simp only [h2, if_false, Bool.false_or]
+      cases otherBias <;> simp only [if_true, if_false, Bool.false_eq_true] <;>
+        (conv_rhs => rw [e1, applyOps_append]) <;> simp only [applyOps] <;> rw [foldMul]
+  · simp only [h1, if_false]
+    by_cases h2 : ops.getLast? = some QOp.add
+    · have e2 := hadd _ h2
+      simp only [h2, if_true, Bool.true_or]
+      conv_rhs => rw [e2, applyOps_append]
+      simp only [applyOps]
+      rw [foldAdd]
+      simp
+    · simp only [h2, if_false, Bool.false_or]
+      cases otherBias <;> simp only [if_true, if_false, Bool.false_eq_true]
+
+example : pipeStages [.mul, .add] false = ([.mul], false, true) ∧ pipeStages [.add, .mul] false = ([], true, true)
+    ∧ pipeStages [.mul] true = ([], true, false) := by decide
+
+end StageOrder
+
 /-! ## Decisions: facts about the transcribed checks -/
 
 /-- **`softmax_axis`**: the upcast-removal rule fires exactly for `float16 → Cast(float) → Softmax →
@@ -697,21 +907,24 @@ theorem rms_scale_cast_binds_before_cast :
     orCast true 1 10 none = (true, 10, some 1) := by decide
 
 /-- **The three guards of the current `RmsNormFusion.check`** (commits 860eec7, 655e32d, a2dc518), for EVERY
-instance: a scale bound before a type-changing Cast, a scale of higher rank than `x`, or an epsilon of higher
-rank than `x` each leave the model unchanged, whenever the guard is active. -/
+instance: a scale of higher rank than `x`, or an epsilon of higher rank than `x`, fails the check. -/
 theorem rms_guards (i : RmsIn) :
-    (i.fix10 = true → i.epsRank > i.xRank → rms i = "count=0")
-    ∧ (i.fix7 = true → i.scaleRank > i.xRank → rms i = "count=0") := by
-  constructor
-  · intro hf hr
-    unfold rms
-    simp only [hf, hr, decide_true, Bool.true_and, if_true]
-    repeat' split
-    all_goals rfl
-  · intro hf hr
-    unfold rms
-    simp only [hf, hr, decide_true, Bool.true_and, if_true]
-    repeat' split
-    all_goals rfl
+    (i.fix10 = true → i.epsRank > i.xRank → rmsCheck i = false)
+    ∧ (i.fix7 = true → i.scaleRank > i.xRank → rmsCheck i = false) := by
+  constructor <;> intro hf hr <;> unfold rmsCheck <;> simp [hf, hr]
+
+/-- **`rms_output_dtype_preserved`** — for EVERY instance the current check accepts (either operand order, any
+combination of the three optional Casts and their target types): the element type of the value bound as `scale` —
+which is the output type of `SimplifiedLayerNormalization` — equals the element type of the replaced product
+`Mul(normalized, scale')` (`scale'` = the scale after its optional Cast).  This is what finding C19-F6 violated. -/
+theorem rms_output_dtype_preserved (i : RmsIn) (h6 : i.fix6 = true) (h : rmsCheck i = true) :
+    (rmsBind i).2.2.2.1 = (if i.scaleCast then i.tdt else i.sdt) := by
+  unfold rmsCheck at h
+  simp only [h6, Bool.true_and, Bool.and_eq_true, Bool.not_eq_true', Bool.and_eq_false_imp] at h
+  have hg := h.2
+  revert hg
+  unfold rmsBind orCast
+  cases hm : i.mulOrder <;> cases hs : i.scaleCast <;> cases hc : i.castIn <;> simp <;>
+    (try (intro hg; split at hg <;> simp_all)) <;> (try split <;> simp_all)
 
 end OV.Props.C19
